@@ -200,6 +200,22 @@ def _dynamic_instance_class(ci: core.ClassInfo) -> typing.Optional[ast.AST]:
     return None
 
 
+def schema_positional(ctx, rule: str = 'R-EQHASH') -> None:
+    """Schemas are ordered: equality compares the fields pairwise in order (the hash is an order-insensitive xor, so equality
+    is the only thing that keeps permuted schemas apart - as keys of caches, and as operands of set statements)."""
+    prog = ctx.prog
+    seq = prog.func(f'{FRAME}:Source.Schema.__eq__')
+    zips = [c for c in core.calls_in(seq.node) if core.call_name(c) == 'zip' and [core.src(a) for a in c.args] in (['cls', 'other'], ['other', 'cls'])]
+    pairwise = False
+    for z in zips:
+        gen = next((a for a in core.ancestors(z) if isinstance(a, ast.GeneratorExp)), None)
+        if gen is not None and isinstance(gen.elt, ast.Compare) and isinstance(gen.elt.ops[0], ast.Eq) and isinstance(core.parent(gen), ast.Call) and core.call_name(core.parent(gen)) == 'all':
+            tg = gen.generators[0].target
+            if isinstance(tg, ast.Tuple) and {core.src(gen.elt.left), core.src(gen.elt.comparators[0])} == {core.src(e) for e in tg.elts}:
+                pairwise = True
+    ctx.check(pairwise, rule, seq, 'Schema equality compares the fields pairwise in declaration order (permuted schemas are different schemas)', seq.node, key='Schema:positional')
+
+
 def r_eqhash(ctx) -> None:
     prog = ctx.prog
     n = 0
@@ -254,18 +270,7 @@ def r_eqhash(ctx) -> None:
             continue
         ctx.check(not extra, 'R-EQHASH', ci.ref, f'{ci.qual}: everything the hash depends on {sorted(htoks)} is compared by equality {sorted(etoks)}', key=f'{ci.qual}:subset', loc=f'{ci.module.relpath}:{hash_node.lineno}')
     ctx.floor('R-EQHASH', n, 6)
-    # schemas are ordered: equality compares the fields pairwise in order (the hash is an order-insensitive xor, so
-    # equality is the only thing that keeps permuted schemas apart)
-    seq = prog.func(f'{FRAME}:Source.Schema.__eq__')
-    zips = [c for c in core.calls_in(seq.node) if core.call_name(c) == 'zip' and [core.src(a) for a in c.args] in (['cls', 'other'], ['other', 'cls'])]
-    pairwise = False
-    for z in zips:
-        gen = next((a for a in core.ancestors(z) if isinstance(a, ast.GeneratorExp)), None)
-        if gen is not None and isinstance(gen.elt, ast.Compare) and isinstance(gen.elt.ops[0], ast.Eq) and isinstance(core.parent(gen), ast.Call) and core.call_name(core.parent(gen)) == 'all':
-            tg = gen.generators[0].target
-            if isinstance(tg, ast.Tuple) and {core.src(gen.elt.left), core.src(gen.elt.comparators[0])} == {core.src(e) for e in tg.elts}:
-                pairwise = True
-    ctx.check(pairwise, 'R-EQHASH', seq, 'Schema equality compares the fields pairwise in declaration order (permuted schemas are different schemas)', seq.node, key='Schema:positional')
+    schema_positional(ctx)
     # equality is a conjunction of its components (same class AND same content AND ...): a disjunction makes objects that share
     # one component equal (Array(Integer) == Array(String) through the class test alone)
     for ci in prog.classes.values():
@@ -706,6 +711,47 @@ def stored_values(ctx) -> None:
     ctx.floor('C08.stored', n, 20)
 
 
+# constructors that may put their arguments into another order before storing them (one reason each)
+REORDER_OK: dict = {}
+
+
+def declared_order(ctx) -> None:
+    """A DSL node stores its constructor arguments in the order given: two statements/kinds differing only in the order of
+    their terms are different structures (a struct lists its elements as declared, a selection its columns as selected).  No
+    ``__new__`` of the family hands the tuple constructor something that went through sorted()/reversed()/set()/frozenset()
+    (directly or through a local)."""
+    prog = ctx.prog
+    n = 0
+    for ci in prog.classes.values():
+        if ci.module.name not in FAMILY_MODULES or '__new__' not in ci.methods:
+            continue
+        new = ci.methods['__new__']
+        args = new.args
+        params = {a.arg for a in args.posonlyargs + args.args + args.kwonlyargs} | ({args.vararg.arg} if args.vararg else set()) | ({args.kwarg.arg} if args.kwarg else set())
+        local: dict = {}
+        for a in core.walk_local(new):
+            if isinstance(a, ast.Assign) and len(a.targets) == 1 and isinstance(a.targets[0], ast.Name):
+                local.setdefault(a.targets[0].id, []).append(a.value)
+        for c in core.calls_in(new):
+            f = c.func
+            if not (isinstance(f, ast.Attribute) and f.attr == '__new__' and ((isinstance(f.value, ast.Call) and core.call_name(f.value) == 'super') or core.src(f.value) == 'tuple')):
+                continue
+            for a in c.args[1:]:
+                seen, todo, exprs = set(), [a], []
+                while todo:
+                    e = todo.pop()
+                    exprs.append(e)
+                    for x in ast.walk(e):
+                        if isinstance(x, ast.Name) and x.id in local and x.id not in seen:
+                            seen.add(x.id)
+                            todo.extend(local[x.id])
+                n += 1
+                bad = [x for e in exprs for x in ast.walk(e) if ((isinstance(x, ast.Call) and isinstance(x.func, ast.Name) and x.func.id in ('sorted', 'reversed', 'set', 'frozenset')) or isinstance(x, ast.SetComp)) and (core.names_in(x) & (params | seen))]
+                bad = [x for x in bad if f'{ci.ref}:{core.src(x)}' not in REORDER_OK]
+                ctx.check(not bad, 'C08.order', ci.ref, f'{ci.qual} stores `{core.src(a)[:50]}` in the order it was given' + (f' (re-ordered by `{core.src(bad[0])[:60]}`)' if bad else ''), bad[0] if bad else a, key=f'{ci.qual}:order:{core.src(a)[:30]}')
+    ctx.floor('C08.order', n, 20)
+
+
 def structure(ctx) -> None:
     prog = ctx.prog
     stored_values(ctx)
@@ -719,6 +765,7 @@ def structure(ctx) -> None:
     ne_pairing(ctx)
     ctx.floor('R-REBUILD', shared.r_rebuild(ctx, [c for c in prog.classes.values() if c.module.name in FAMILY_MODULES]), 3)
     class_exact_eq(ctx)
+    declared_order(ctx)
 
 
 def class_exact_eq(ctx) -> None:
